@@ -172,6 +172,18 @@ def repr_key(world):
     return tuple((lab, ar, c) for lab, ar, c in world)
 
 
+def safe_copy(obj, kind='deepcopy'):
+    """copy.deepcopy(obj) / a pickle round trip of obj, or None when TAKING the copy itself raises: no property promises
+    that the library's objects can be copied or pickled, so a scenario that continues on a copy simply does not apply then
+    (a copy that can be taken must behave like the object itself - that is what those scenarios check)."""
+    import copy
+    import pickle
+    try:
+        return copy.deepcopy(obj) if kind == 'deepcopy' else pickle.loads(pickle.dumps(obj))
+    except Exception:
+        return None
+
+
 class Stats:
     def __init__(self):
         self.executions = 0
